@@ -23,8 +23,8 @@ EXPLANATION = (
     "the message table, instrument announcement in play_Tracks and the default channels of play_Composition are "
     "evaluated; loops that mutate the list they iterate are reported (typestate lint with a positive fixture).")
 TRUSTED = ["CPython ast module", "mingus_static abstract evaluator + rational functions", "event model in rules/c18.py"]
-NOT_DECIDED = ("the parallel scheduler of play_Bars (re-triggering with unequal rhythms, total sleep time of parallel bars): an algorithm over "
-               "runtime lists; only its final clean-up loop and its interface are checked")
+NOT_DECIDED = ("the parallel scheduler of play_Bars on unequal rhythms (re-triggering of long notes, bars that are not full): an algorithm over "
+               "runtime lists; play_Bars is decided on parallel full bars with equal rhythms (seven shapes, symbolic tempo and pitches)")
 
 SQ, SO, NOTE, NC, BAR, TR, INS = ("mingus.midi.sequencer", "mingus.midi.sequencer_observer", "mingus.containers.note",
                                   "mingus.containers.note_container", "mingus.containers.bar", "mingus.containers.track",
@@ -97,13 +97,14 @@ def run(ctx):
     rule_registry(ctx)
     rule_control_change(ctx)
     rule_bars(ctx)
+    rule_parallel_bars(ctx)
     rule_tracks(ctx)
     rule_mutation_while_iterating(ctx)
     ctx.floor("R-C18-1", 15)
     ctx.floor("R-C18-2", 4)
     ctx.floor("R-C18-3", 3)
     ctx.floor("R-C18-4", 8)
-    ctx.floor("R-C18-5", 15)
+    ctx.floor("R-C18-5", 22)
     ctx.floor("R-C18-6", 4)
     ctx.floor("R-C18-7", 2)
 
@@ -370,6 +371,87 @@ def rule_bars(ctx):
         elif not (isinstance(res, dict) and same_val(it, res.get("bpm"), t2)):
             ok, why = False, "returns %r" % (res,)
     ctx.check(ok, R, "play_Track", ft.where(), "Sequencer.play_Track(<2 bars>)", why)
+
+
+def build_bar_fixed(repo, kinds, durs, tag):
+    """A full bar with concrete beat positions/durations (the scheduler does float arithmetic on them); every Note has
+    a channel and a velocity of its own (symbolic here), which take precedence over the bar's channel."""
+    from fractions import Fraction
+    nci, barci = repo.mod(NC).cls("NoteContainer"), repo.mod(BAR).cls("Bar")
+    entries, desc, at = [], [], Fraction(0)
+    ids = itertools.count((hash(tag) % 900 + 50) * 10)
+    for ei, (k, d) in enumerate(zip(kinds, durs)):
+        notes = [note_stub(repo, next(ids)) for _ in range(KINDS[k])]
+        content = None if k == "R" else AObj(nci, {"notes": list(notes)}, name="cont%s%d" % (tag, ei))
+        bpm = None
+        if k == "T2":
+            bpm = RatFun.var("bpm_%s%d" % (tag, ei))
+            content.attrs["bpm"] = bpm
+        entries.append([float(at), d, content])
+        desc.append((k, d, notes, bpm, content))
+        at += Fraction(1, d)
+    return AObj(barci, {"bar": entries, "length": 1.0, "current_beat": 1.0}, name="bar" + tag), desc
+
+
+def model_parallel(descs, channels, bpm):
+    """Equal rhythms in all bars: per step every bar's container starts (bar order), tempo changes of that step apply
+    (the last bar's wins), one sleep of 240/(bpm*value), then every bar's container stops (bar order)."""
+    ev = []
+    for step in range(len(descs[0])):
+        for desc, ch in zip(descs, channels):
+            for n in desc[step][2]:
+                ev.append(("play_event", [n.attrs["pitch"] + 12, n.attrs["channel"], n.attrs["velocity"]]))
+            if desc[step][3] is not None:
+                bpm = desc[step][3]
+        b = RatFun.of(bpm)
+        ev.append(("sleep", [RatFun(RatFun.of(240).num * b.den, b.num * RatFun.of(descs[0][step][1]).num)]))
+        for desc, ch in zip(descs, channels):
+            for n in desc[step][2]:
+                ev.append(("stop_event", [n.attrs["pitch"] + 12, n.attrs["channel"]]))
+    return ev, bpm
+
+
+def rule_parallel_bars(ctx):
+    """play_Bars on parallel bars with equal rhythms (the case the statement's timing clause covers)."""
+    R = "R-C18-5"
+    repo = ctx.repo
+    sci, oci, summ = world(repo)
+    f = repo.find_method(sci, "play_Bars")
+    shapes = [
+        ("tempo-in-first-bar", [2, 2], [["N1", "T2"], ["N1", "N1"]]),
+        ("tempo-in-last-bar", [2, 2], [["N1", "N1"], ["T2", "N2"]]),
+        ("tempo-first-step", [4, 4, 4, 4], [["T2", "N1", "N1", "N1"], ["N1", "N2", "R", "N1"]]),
+        ("three-bars-middle", [2, 4, 4], [["N1", "N1", "N1"], ["N2", "T2", "R"], ["R", "N1", "N1"]]),
+        ("both-change", [1], [["T2"], ["T2"]]),
+        ("single", [4, 4, 2], [["N1", "T2", "N2"]]),
+        ("no-change", [2, 2], [["N1", "R"], ["N2", "N1"]]),
+    ]
+    for label, durs, kinds_per_bar in shapes:
+        bpm0 = RatFun.var("bpm")
+        channels = [3 + i for i in range(len(kinds_per_bar))]
+
+        def go(it):
+            seq, obs = make_seq(sci, oci)
+            built = [build_bar_fixed(repo, kinds, durs, "p%d" % i) for i, kinds in enumerate(kinds_per_bar)]
+            return it.call_function(f, [seq, [b for b, _ in built], list(channels), bpm0], {}), [d for _, d in built]
+        try:
+            p = explore(lambda ch: Interp(repo, ch, summaries=summ, max_depth=30), go)
+        except CannotDecide as e:
+            raise AnalysisError("play_Bars on %s: %s" % (label, e))
+        ok, why = len(p) == 1 and p[0].kind == "return", "outcome %s" % [(x.kind, short(repr(x.value), 60)) for x in p][:2]
+        if ok:
+            it = p[0].interp
+            res, descs = p[0].value
+            want, final = model_parallel(descs, channels, bpm0)
+            d1 = streams_equal(it, hook_stream(it), want)
+            d2 = streams_equal(it, obs_low_stream(it), hook_stream(it))
+            if d1:
+                ok, why = False, "hook stream differs from the event model of parallel bars: %s" % d1
+            elif d2:
+                ok, why = False, "observers and hooks see different low-level streams: %s" % d2
+            elif not (isinstance(res, dict) and set(res) == {"bpm"} and same_val(it, res["bpm"], final)):
+                ok, why = False, "returns %r, expected {'bpm': final tempo}" % (res,)
+        ctx.check(ok, R, "play_Bars[%s]" % label, f.where(), "Sequencer.play_Bars(<%s>)" % label, why)
 
 
 def rule_tracks(ctx):
